@@ -503,9 +503,23 @@ static int size_of_program (const unsigned char *t, size_t n) {
 /* the parent compiles a few things itself (baseline probe, calibration); a compiler that loops there would hang the whole check */
 static const char *parent_phase = "boot";
 static void parent_alarm (int sig) {
+  /* reported like any other hang: a fail record (and, in --enum mode, a summary) in the output the check reads */
+  char key[120], rec[600];
+  const char *outp = vx_opt ("out", 0);
+  int replay = vx_opt ("replay-index", 0) != 0;
   (void) sig;
+  snprintf (key, sizeof key, "hang:parent:%s", parent_phase);
+  for (char *q = key; *q; q++) if (*q == ' ') *q = '-';
   fprintf (stderr, "h_c02: the compiler did not return within the time limit in the parent (%s)\n", parent_phase);
-  syscall (SYS_exit_group, 3);
+  int fd = (outp && !replay) ? open (outp, O_WRONLY | O_CREAT | O_TRUNC, 0644) : 1;
+  int n = snprintf (rec, sizeof rec, "{\"type\":\"%s\",\"index\":0,\"desc\":\"%s\",\"choices\":[],\"labels\":[],\"obs\":\"\",\"fails\":[{\"key\":\"%s\",\"msg\":\"the compiler did not return while the harness compiled its own %s in the freshly booted driver\",\"index\":0}],\"stderr\":\"\"}\n",
+                    replay ? "replay" : "fail", parent_phase, key, parent_phase);
+  if (fd >= 0 && write (fd, rec, (size_t) n) < 0) {}
+  if (!replay && fd >= 0) {
+    n = snprintf (rec, sizeof rec, "{\"type\":\"summary\",\"mode\":\"enum\",\"total\":0,\"from\":0,\"to\":0,\"evaluations\":0,\"exhaustive\":false,\"hangs\":1,\"counters\":{},\"fail_keys\":{\"%s\":1}}\n", key);
+    if (write (fd, rec, (size_t) n) < 0) {}
+  }
+  syscall (SYS_exit_group, replay ? 1 : 0);
 }
 
 /* ------------------------------------------------------------------ boot */
@@ -534,7 +548,7 @@ int main (int argc, char **argv) {
   c02_maxlocals = (int) vx_opt_long ("maxlocals", 25);
   if (probe_every < 1) probe_every = 1;
   signal (SIGALRM, parent_alarm);
-  alarm (300);
+  alarm (90);
   make_lib ();
   if (!strcmp (part, "sweep")) sweep_prepare (thorough);
   snprintf (conf, sizeof conf, "MaxLocalVariables %d\nMaxInheritDepth 30\nIncludeDir /c02/inc\n", c02_maxlocals);
